@@ -56,6 +56,7 @@ func newCache(conf Config) *cache {
 }
 
 func (c *cache) Clear() {
+	simPoint("cache.Clear", &c.lock)
 	c.lock.Lock()
 	c.items = make(map[string]*item)
 	listInit(&c.usage)
@@ -76,6 +77,7 @@ func (c *cache) Set(key, val []byte) bool {
 	it.key = key
 	it.value = val
 
+	simPoint("cache.Set", &c.lock)
 	c.lock.Lock()
 
 	if !c.conf.EnableLRU &&
@@ -94,6 +96,7 @@ func (c *cache) Set(key, val []byte) bool {
 		if c.conf.OnDelete != nil {
 			c.lock.Unlock()
 			c.conf.OnDelete(it.key, it.value)
+			simPoint("cache.Set.relock", &c.lock)
 			c.lock.Lock()
 		}
 	}
@@ -116,6 +119,7 @@ func (c *cache) Set(key, val []byte) bool {
 
 // Get value
 func (c *cache) Get(key []byte) []byte {
+	simPoint("cache.Get", &c.lock)
 	c.lock.Lock()
 	val, ok := c.items[string(key)]
 	if ok && c.conf.EnableLRU {
@@ -133,6 +137,7 @@ func (c *cache) Get(key []byte) []byte {
 
 // Del - delete element
 func (c *cache) Del(key []byte) {
+	simPoint("cache.Del", &c.lock)
 	c.lock.Lock()
 	it, ok := c.items[string(key)]
 	if !ok {
@@ -147,6 +152,7 @@ func (c *cache) Del(key []byte) {
 
 // GetStats - get counters
 func (c *cache) Stats() Stats {
+	simPoint("cache.Stats", &c.lock)
 	s := Stats{}
 	s.Count = len(c.items)
 	s.Size = int(c.size)
